@@ -701,10 +701,14 @@ func (m *intraProxyManager) ensureStream(
 		if err := recv.Run(ctx, m.shardManager, ps.conn); err != nil {
 			m.loggers.Get(logging.ShardRouting).Error("intraProxyStreamReceiver.Run error", tag.Error(err))
 		}
-		// remove the receiver from the peer state
+		// remove the receiver from the peer state - but only its own entry: if it was closed and
+		// replaced in the meantime, the table holds its successor, and deleting that would orphan
+		// the successor's stream (never closed again) and make the next pass open yet another one
 		m.streamsMu.Lock()
-		delete(ps.receivers, key)
-		delete(ps.recvShutdown, key)
+		if ps.receivers[key] == recv {
+			delete(ps.receivers, key)
+			delete(ps.recvShutdown, key)
+		}
 		m.streamsMu.Unlock()
 	}()
 	return nil
